@@ -299,11 +299,10 @@ def limits(ctx):
     rd = prog.fn("msi::internal::table::Table::read_rows")
     S = Sym(prog, rd)
     bound = None
+    from ..lib import exceeds_facts
     for (b, t, k, m) in error_sites(prog, rd):
-        for (e, tr, g) in S.bool_facts_at(b):
-            mm = re.search(r" Gt c:(\d+)\)$", e)
-            if mm and tr is True:
-                bound = int(mm.group(1))
+        for (x, n_, g) in exceeds_facts(S.bool_facts_at(b)):
+            bound = n_
     if not ctx.check(bound is not None, R, "reader's row bound", str(bound), "Table::read_rows no longer has a row-count bound with an error edge", rd.loc(), fn=rd.name):
         return
     Sm = Summaries(prog)
@@ -312,18 +311,17 @@ def limits(ctx):
     muts = set(Sm.mutation_blocks(f))
     found = None
     for (b, t, k, m) in error_sites(prog, f):
-        for (e, tr, g) in Sf.bool_facts_at(b):
-            mm = re.search(r"^\((.*) Gt c:(\d+)\)$", e)
-            if mm and tr is True and int(mm.group(2)) <= bound and "len(" in mm.group(1) and k == "InvalidInput":
+        for (x, n_, g) in exceeds_facts(Sf.bool_facts_at(b)):
+            if n_ <= bound and "len(" in x and k == "InvalidInput":
                 if not any(b in cfg.reachable(f, mb) for mb in muts):
-                    found = (int(mm.group(2)), mm.group(1))
+                    found = (n_, x)
     if found is not None:
         # the count must include the rows already stored: the comparison comes after they were loaded
         rr = [b for b, t in f.calls() if cname(prog, t) == "msi::internal::table::Table::read_rows"]
         gb = None
         for (b, t, k, m) in error_sites(prog, f):
-            for (e, tr, g) in Sf.bool_facts_at(b):
-                if tr is True and re.search(r" Gt c:%d\)$" % found[0], e):
+            for (x, n_, g) in exceeds_facts(Sf.bool_facts_at(b)):
+                if n_ == found[0]:
                     gb = g
         ok_order = len(rr) == 1 and gb is not None and gb in cfg.reachable(f, rr[0]) and rr[0] not in cfg.reachable(f, gb)
         ctx.check(ok_order, R, "the row bound is tested after the stored rows were loaded", "", "Insert::exec compares the row count with the bound before the stored rows are read: only the rows of "
